@@ -12895,7 +12895,7 @@ class TensorDictBase(MutableMapping):
         return out
 
     def empty(
-        self, recurse=False, *, batch_size=None, device=NO_DEFAULT, names=None
+        self, recurse=False, *, batch_size=None, device=NO_DEFAULT, names=NO_DEFAULT
     ) -> T:  # noqa: D417
         """Returns a new, empty tensordict with the same device and batch size.
 
@@ -12908,7 +12908,8 @@ class TensorDictBase(MutableMapping):
         Keyword Args:
             batch_size (torch.Size, optional): a new batch-size for the tensordict.
             device (torch.device, optional): a new device.
-            names (list of str, optional): dimension names.
+            names (list of str, optional): dimension names. ``None`` erases the names,
+                if not provided the names of the tensordict are kept.
 
         """
         if not recurse:
@@ -12923,7 +12924,7 @@ class TensorDictBase(MutableMapping):
                 result.clear_device_()
             else:
                 result = result.to(device)
-        if names is not None:
+        if names is not NO_DEFAULT:
             result.names = names
         return result
 
